@@ -250,6 +250,19 @@ def _walk_to(fixed, var, start, goal):
     return None
 
 
+def _dist_map(fixed, var, start):
+    dist = {start: 0}
+    dq = deque([start])
+    while dq:
+        cur = dq.popleft()
+        for dr, dc in MOVES:
+            n = (cur[0] + dr, cur[1] + dc)
+            if _inside(*n) and n not in dist and fixed[n] != WALL and var[n] != BOX:
+                dist[n] = dist[cur] + 1
+                dq.append(n)
+    return dist
+
+
 def pol_push(ctx):
     """Walk behind a box and keep pushing it in one direction until it is stuck (against a wall, a box or the
     grid edge), push once more (a blocked move), then pick another box / direction."""
@@ -259,15 +272,22 @@ def pol_push(ctx):
         plan = ctx.get("sk_plan")
         if plan is None:
             boxes = [(int(r), int(c)) for r, c in zip(*np.nonzero(var == BOX))]
+            dist = _dist_map(fixed, var, pos)
             cands = []
             for b in boxes:
                 for k, (dr, dc) in enumerate(MOVES):
                     behind = (b[0] - dr, b[1] - dc)
-                    if _inside(*behind) and fixed[behind] != WALL and var[behind] != BOX and (behind == pos or _walk_to(fixed, var, pos, behind) is not None):
-                        cands.append((b, k))
+                    if behind not in dist or (b, k) in ctx.setdefault("sk_done", set()):
+                        continue
+                    # cost = walk behind the box + pushes until it is stuck + the blocked push
+                    n, cur = 0, (b[0] + dr, b[1] + dc)
+                    while _inside(*cur) and fixed[cur] != WALL and var[cur] != BOX:
+                        n, cur = n + 1, (cur[0] + dr, cur[1] + dc)
+                    cands.append((dist[behind] + n + 1 + (0 if not _inside(*cur) else 4), b, k))
             if not cands:
                 return np.asarray(rng.integers(0, 4), np.int32)
-            b, k = cands[int(rng.integers(len(cands)))]
+            sub = [c for c in cands if rng.random() < 0.5] or cands
+            _, b, k = min(sub, key=lambda c: c[0])
             plan = ctx["sk_plan"] = {"box": b, "dir": k, "extra": 1}
         b, k = plan["box"], plan["dir"]
         dr, dc = MOVES[k]
@@ -289,6 +309,7 @@ def pol_push(ctx):
         if plan["extra"] > 0:
             plan["extra"] -= 1
             return np.asarray(k, np.int32)  # the blocked push
+        ctx.setdefault("sk_done", set()).add((b, k))
         ctx["sk_plan"] = None
     return np.asarray(rng.integers(0, 4), np.int32)
 
